@@ -276,11 +276,15 @@ class Verdict:
                 continue
             seen.add(kid)
             print("KNOWN-FINDING: property=%s %s %s" % (self.pid, kid, what))
-        for n in self.notes:
-            print("NOTE", n)
         for what, path in self.violations[:20]:
             print("VIOLATION property=%s replay=%s" % (self.pid, path))
-            print("  ", what[:500])
+            print("  ", what[:400].replace("\n", " "))
+        if len(self.violations) > 20:
+            print("  ... and %d more violations" % (len(self.violations) - 20))
+        for n in self.notes[:6]:
+            print("NOTE", n[:300].replace("\n", " "))
+        if len(self.notes) > 6:
+            print("NOTE ... and %d more notes" % (len(self.notes) - 6))
         if self.violations:
             return 1
         if self.harness_errors:
@@ -288,3 +292,79 @@ class Verdict:
                 print("HARNESS-ERROR", h[:1000])
             return 2
         return 0
+
+
+# ----------------------------------------------------------------------------- library worker
+class Worker:
+    """client of .build/vworker: one request per line; a dead or silent worker is an observation"""
+
+    def __init__(self, timeout=10.0):
+        self.timeout = timeout
+        self.p = None
+        self.n = 0
+        self.restarts = 0
+
+    def start(self):
+        r, w = os.pipe()
+        self.p = subprocess.Popen([os.path.join(BUILD, "vworker")], stdin=subprocess.PIPE, stdout=subprocess.DEVNULL,
+                                  stderr=subprocess.PIPE, pass_fds=(), preexec_fn=lambda: os.dup2(w, 3), close_fds=False)
+        os.close(w)
+        self.rfd = os.fdopen(r, "r")
+        self.restarts += 1
+
+    def stop(self):
+        if self.p:
+            try:
+                self.p.kill()
+                self.p.wait(timeout=5)
+            except Exception:
+                pass
+            try:
+                self.rfd.close()
+                self.p.stderr.close()
+                self.p.stdin.close()
+            except Exception:
+                pass
+            self.p = None
+
+    def call(self, req, timeout=None):
+        import select
+        if self.p is None or self.p.poll() is not None:
+            self.stop()
+            self.start()
+        self.n += 1
+        req = dict(req, id=self.n)
+        try:
+            self.p.stdin.write((json.dumps(req) + "\n").encode())
+            self.p.stdin.flush()
+        except (BrokenPipeError, OSError):
+            err = self._stderr()
+            self.stop()
+            return {"crash": err or "worker died before the request (late crash of an earlier call)", "late": True}
+        rl, _, _ = select.select([self.rfd], [], [], timeout or self.timeout)
+        if not rl:
+            self.stop()
+            return {"hang": True}
+        line = self.rfd.readline()
+        if not line:
+            err = self._stderr()
+            self.stop()
+            return {"crash": err[-3000:]}
+        try:
+            return json.loads(line)
+        except ValueError:
+            return {"crash": "garbled reply: " + line[:200]}
+
+    def _stderr(self):
+        try:
+            self.p.wait(timeout=3)
+            txt = self.p.stderr.read().decode("utf-8", "replace")
+            import re as _re
+            m = _re.search(r"^(panic:|fatal error:).*$", txt, _re.M)
+            head = txt[m.start():m.start() + 600] if m else txt[:600]
+            return head + ("\n...\n" + txt[-300:] if len(txt) > 900 else "")
+        except Exception:
+            return ""
+
+    def alive(self):
+        return self.p is not None and self.p.poll() is None
